@@ -15,6 +15,7 @@ import (
 	"github.com/nyaruka/goflow/assets"
 	"github.com/nyaruka/goflow/excellent/types"
 	"github.com/nyaruka/goflow/flows"
+	"github.com/nyaruka/goflow/utils"
 	"github.com/shopspring/decimal"
 )
 
@@ -267,6 +268,8 @@ type routing struct {
 	k        float64
 	depth    int
 	eventIdx int
+	// operandText holds the operand the tests of this routing were called with, when it is text
+	operandText []string
 }
 
 func runDepth(r flows.Run) int {
@@ -677,6 +680,11 @@ func (C07) AfterCall(w *World, c *Call) {
 			if winner >= 0 {
 				match, isMatch = calls[winner].Match, true
 			}
+			if len(calls) > 0 && len(calls[0].Args) > 0 {
+				if _, isText := calls[0].Args[0].(*types.XText); isText {
+					rt.operandText = []string{calls[0].ArgText[0]}
+				}
+			}
 			if !w.checkResult(c, rt, router, cat, match, isMatch, "switch") {
 				return
 			}
@@ -735,11 +743,13 @@ func resultEventFor(c *Call, rt *routing, router gen.J) gen.J {
 // default category) as value and the operand as input.
 func (w *World) checkResult(c *Call, rt *routing, router, cat gen.J, match string, isMatch bool, kind string) bool {
 	ev := resultEventFor(c, rt, router)
-	if ev == nil {
-		return true // no result name, or unchanged result (no event): nothing to judge
-	}
-	// actions of the same node may save under the same name after... no: routers route after actions
 	nodeU, _ := rt.node["uuid"].(string)
+	if ev == nil {
+		// no result name, or a save that changed neither value nor category (no event): the save
+		// itself still happened, so the stored result is this routing's (judged when nothing later
+		// in this run can have saved under the same key)
+		return w.checkSilentSave(c, rt, router, cat, nodeU, kind)
+	}
 	if ev["category"] != cat["name"] {
 		w.Violate("C07", "result", "C07.result-category/"+kind, fmt.Sprintf("router on node %s left by the exit of category %q but saved the result with category %v", nodeU, cat["name"], ev["category"]))
 		return false
@@ -793,6 +803,77 @@ func (w *World) checkResult(c *Call, rt *routing, router, cat gen.J, match strin
 		w.probe("c18_category_localized_checked")
 	}
 	return true
+}
+
+// checkSilentSave judges the stored result of a routing that logged no run_result_changed.
+func (w *World) checkSilentSave(c *Call, rt *routing, router, cat gen.J, nodeU, kind string) bool {
+	name, _ := router["result_name"].(string)
+	if name == "" || kind != "switch" || len(rt.operandText) == 0 {
+		return true
+	}
+	key := utils.Snakify(name)
+	// later steps of this run (all in this sprint) must not be able to save under the key
+	path := rt.run.Path()
+	after := false
+	for i, st := range path {
+		if st == rt.step {
+			after = true
+			continue
+		}
+		if !after {
+			continue
+		}
+		nd := rt.def.Nodes[string(st.NodeUUID())]
+		if nd == nil {
+			return true
+		}
+		routed := i < len(path)-1 || st.ExitUUID() != ""
+		if nodeSavesKey(nd, key, routed) {
+			return true
+		}
+	}
+	if !after {
+		return true
+	}
+	res := rt.run.Results().Get(key)
+	if res == nil {
+		w.Violate("C07", "result", "C07.result-missing", fmt.Sprintf("router on node %s routed to category %q with result name %q but the run has no result %q", nodeU, cat["name"], name, key))
+		return false
+	}
+	op := rt.operandText[0]
+	switch {
+	case string(res.NodeUUID) != nodeU:
+		w.Violate("C07", "result", "C07.result-stale/node", fmt.Sprintf("router on node %s was the last to save result %q in its run (value and category unchanged, no event) but the stored result names node %s", nodeU, key, res.NodeUUID))
+	case res.Category != fmt.Sprint(cat["name"]):
+		w.Violate("C07", "result", "C07.result-stale/category", fmt.Sprintf("router on node %s routed to category %q; stored result %q has category %q", nodeU, cat["name"], key, res.Category))
+	case res.Input != op:
+		w.Violate("C07", "result", "C07.result-stale/input", fmt.Sprintf("router on node %s was the last to save result %q in its run with operand %q (value and category unchanged, so no event) but the stored result carries input %q", nodeU, key, op, res.Input))
+	default:
+		w.probe("c07_silent_save_checked")
+		return true
+	}
+	return false
+}
+
+// nodeSavesKey says whether a node's actions (and, when routed, its router) can save a result under key.
+func nodeSavesKey(nd gen.J, key string, routed bool) bool {
+	acts, _ := nd["actions"].([]any)
+	for _, a := range acts {
+		am, _ := a.(gen.J)
+		for _, k := range []string{"result_name", "name"} {
+			if n, ok := am[k].(string); ok && n != "" && (k == "result_name" || am["type"] == "set_run_result") && utils.Snakify(n) == key {
+				return true
+			}
+		}
+	}
+	if routed {
+		if r, _ := nd["router"].(gen.J); r != nil {
+			if n, _ := r["result_name"].(string); n != "" && utils.Snakify(n) == key {
+				return true
+			}
+		}
+	}
+	return false
 }
 
 // finalResultFor returns the run's stored result if it is the one this routing saved: same
